@@ -514,17 +514,26 @@ fn gen_r3(tier: &str, seed: u64, out: &mut dyn FnMut(String)) {
     for p in ["1", "3", "5", "255", "256", "300", "1074"] { for ty in &all_types { out(disp_line(ty, &[2, 2], p, 0)); out(disp_line(ty, &[3], p, 1)); } }
     for p in ["32767", "32768", "65535"] { for ty in ["f64", "f32", "f64x"] { out(disp_line(ty, &[2], p, 0)); if thorough { out(disp_line(ty, &[2, 1], p, 1)); } } }
 
-    // ---- stream 7: rows of 8191 .. 70000 elements (a blocked row renderer), many rows, `huge_shapes()`; the model itself answers (linear)
+    // ---- stream 7: rows of 8191 .. 70000 elements (a blocked row renderer), many rows, `huge_shapes()`; the model itself answers (its
+    // `display` and literal parse-back are linear, about 8 us per element).  Element types with heap data (String, tuples, lists) only on
+    // shapes with few rows: the crate clones the whole array once per row when it splits, which is quadratic for them (28 s at [8193,2])
     let mut rows: Vec<Vec<usize>> = vec![vec![8191], vec![8192], vec![8193], vec![8194], vec![10000], vec![16384], vec![16385], vec![2, 8193], vec![2, 10000], vec![1, 1, 8193],
         vec![8193, 1], vec![8193, 2], vec![24577], vec![3, 2, 20011]];
     rows.extend(huge_shapes());
+    let copy_types = ["f64", "u8", "i64", "usize", "f32", "bool", "char", "i8", "u64", "i32~r"];       // not f64x: 1e300 * k prints 300 digits per element
+    let heap_types = ["String", "T2", "List", "ListS"];
     for (i, s) in rows.iter().enumerate() {
         let n: usize = s.iter().product();
+        let many_rows = n / s[s.len() - 1] > 1000;
         if s[0] > 20000 && !thorough { continue; }            // 70000 rows: the crate splits rows quadratically (thorough tier only)
-        let k = if thorough { 4 } else if n <= 20100 { 4 } else { 2 };
-        for (prec, alt) in COMBOS.iter().take(k) { out(disp_line("i32", s, prec, *alt)); }
+        let k = if thorough { 4 } else if n <= 8200 || n > 100000 { 2 } else if s.len() == 1 && n > 20000 { 1 } else if n > 16500 { 1 } else { 2 };
+        for c in 0..k { let (prec, alt) = COMBOS[(c + if k == 1 { i % 2 } else { 0 }) % 4]; out(disp_line("i32", s, prec, alt)); }
         let others = if thorough { 3 } else { 1 };
-        for j in 0..others { let ty = DISP_TYPES[1 + (i * 3 + j) % 15]; let (prec, alt) = COMBOS[(i + j) % 4]; out(disp_line(ty, s, prec, alt)); }
+        for j in 0..others {
+            let ty = if !many_rows && n <= 20100 && (i + j) % 3 == 0 { heap_types[(i + j) % 4] } else { copy_types[(i * 3 + j) % 10] };
+            let (prec, alt) = COMBOS[(i + j + 1) % 4];
+            out(disp_line(ty, s, prec, alt));
+        }
     }
 
     // ---- stream 10: ranks 5..8, text form and run-time front ends
@@ -549,9 +558,11 @@ fn gen_r3(tier: &str, seed: u64, out: &mut dyn FnMut(String)) {
         out(format!("t2show {} {}", enc(&a), enc(&b))); out(format!("t2rt {} {}", enc(&a), enc(&b))); out(format!("t2rt {} {}", enc(&b), enc(&a)));
         out(format!("t3show {} {} {}", enc(&a), enc(&b), enc(&a))); out(format!("t3rt {} {} {}", enc(&b), enc(&a), enc(&b)));
         out(format!("lshow {}", enc_list(&[a.clone(), b.clone()]))); out(format!("lrt {}", enc_list(&[a.clone(), b.clone()]))); out(format!("lrt {}", enc_list(&[b.clone()])));
-        out(format!("t2rt_t 5 {} {}", enc(&a), enc("7"))); out(format!("t2rt_t 8 {} {}", enc(&b), enc(&a)));
-        out(format!("lrt_t 7 {}", enc_list(&[a.clone()]))); out(format!("lrt_t 7 {}", enc_list(&[a.clone(), "k".to_string(), a.clone()])));
-        out(format!("lrt_t 6 {}", enc_list(&[b.clone(), a.clone()])));
+        if !",()[]".contains(c) {      // typed round trips: the statement is about separator-free components
+            out(format!("t2rt_t 5 {} {}", enc(&a), enc("7"))); out(format!("t2rt_t 8 {} {}", enc(&b), enc(&a)));
+            out(format!("lrt_t 7 {}", enc_list(&[a.clone()]))); out(format!("lrt_t 7 {}", enc_list(&[a.clone(), "k".to_string(), a.clone()])));
+            out(format!("lrt_t 6 {}", enc_list(&[b.clone(), a.clone()])));
+        }
     }
     for ty in DISP_TYPES_X { for s in [vec![95usize], vec![5, 19], vec![2, 3], vec![190]] { for (prec, alt) in COMBOS { out(disp_line(ty, &s, prec, alt)); } } }
 
@@ -601,7 +612,10 @@ fn gen(tier: &str, seed: u64, out: &mut dyn FnMut(String)) {
     // picks its last sample (so the counters show in the evidence file), one at the very end
     let mut lines: Vec<String> = vec![];
     gen_base(tier, seed, &mut |l| lines.push(l));
+    // the part-2 streams go in front of the last quarter of the older streams (the exhaustive malformed texts), so that the first tally line sees them
+    let tail = lines.split_off(lines.len() * 3 / 4);
     gen_r3(tier, seed, &mut |l| lines.push(l));
+    lines.extend(tail);
     let n = lines.len() + 2;
     let pos = (11 * (n / 12).max(1)).min(lines.len());
     lines.insert(pos, "tally".to_string());
@@ -804,7 +818,7 @@ fn signature(v: &Verdict) -> Option<String> { match v { Verdict::Match(o) => Som
 
 fn exec(op: &str, args: &[&str], expected: &str) -> Option<Verdict> {
     if op == "tally" {
-        return Some(Verdict::Match(format!("ok tally so far: {} A-B-A re-runs; {} arrays rendered a second time and rebuilt; {} text forms of more than 8192 elements compared with the model", N_ABA.load(Relaxed), N_TWICE.load(Relaxed), N_HUGE.load(Relaxed))));
+        return Some(Verdict::Match(format!("ok tally: {} A-B-A re-runs; {} arrays rendered twice + rebuilt; {} text forms of more than 8192 elements compared with the model", N_ABA.load(Relaxed), N_TWICE.load(Relaxed), N_HUGE.load(Relaxed))));
     }
     if op == "seq" { return exec_seq(args, expected); }
     let mut verdict = exec_single(op, args, expected)?;
